@@ -187,7 +187,7 @@ def upload_objects(o, tier, prefixes):
     o.cov["distinct_nontrivial"] += len(set(l.split(" -> ")[-1] for l in impl))
     o.notes.setdefault("profiles", {})["store-upload-objects"] = {
         "scenarios": len(impl), "max_sequence_length": depth, "stores": ["mem", "dir", "memdir"], "monitor_hits": len(mon),
-        "alphabet": ["Wa", "Wb", "Vbad", "Vgood", "V512", "Close", "CloseRaw", "Cancel"], "pins": ["none", "digest of one Wa chunk", "a digest no sequence produces"], "outcomes": len(set(l.split(" -> ")[-1] for l in impl))}
+        "alphabet": ["Wa", "Wb", "Vbad", "Vbad512", "Vgood", "V512", "Close", "CloseRaw", "Cancel"], "pins": ["none", "digest of one Wa chunk", "a digest no sequence produces"], "outcomes": len(set(l.split(" -> ")[-1] for l in impl))}
     if not ok and not mon:
         o.violation("upload object harness failed: %s" % out[-1500:], {"kind": "harness", "output": out[-4000:]}, no_input=True)
         return
@@ -267,12 +267,16 @@ def extra_gc(prop):
     the Upd.gcRepo model against the real repoGarbageCollect on the three stores, monitors C05.* / C06.*"""
     def run(o, tier):
         # C06 "leaves no index entry without backing content" also holds for index.json on disk (directory monitors of C10)
-        extra = ("C10.index-entry", "C10.index-tags") if prop == "C06" else ()
+        # C05 "… the referrers of a retained subject together with their content": a referrer that a collection makes disappear from
+        # the listing of its (present) subject decides too (plain name only: the labelled causes are C07's known findings)
+        extra = ("C10.index-entry", "C10.index-tags") if prop == "C06" else ("C07.refs-exact",)
         http_check(o, tier, prop, ["gc"], make_view(fields=("code", "dcd", "body")), o.cov.get("rule", "") + " | " + RULE % "gc (HTTP level)",
                    monitors_prefix=prop + ".", n_quick=150, n_thorough=5000, extra_monitors=extra)
         # collections of a memory store over a directory that already holds content (built by a directory store first)
+        # (the referrers shadow is not kept exact across restarts of the overlay: C07's monitor is not consulted here)
         http_check(o, tier, prop, ["rofs"], make_view(fields=("code", "dcd", "body")), o.cov.get("rule", "") + " | " + RULE % "gc, rofs (HTTP level)",
-                   monitors_prefix=prop + ".", n_quick=150, n_thorough=4000, stores=("dir",), extra_monitors=extra)
+                   monitors_prefix=prop + ".", n_quick=150, n_thorough=4000, stores=("dir",),
+                   extra_monitors=extra if prop == "C06" else ())
     return run
 
 
